@@ -184,6 +184,10 @@ func two(x uint64) (uint64, bool) {
 	return x + 1, x > 2
 }
 
+func twoU(x uint64) (uint64, uint64) {
+	return x + 1, x * 2
+}
+
 func three(x uint64) (uint64, uint64, bool) {
 	return x, x + 1, x == 0
 }
